@@ -2,7 +2,7 @@
    bit 0 model/implementation mismatch, bit 1 property predicate false on the observed trace,
    bit 2 outside the guard, bit 3 outside the model, bits 8.. guard reasons. *)
 From Coq Require Import ZArith List String Bool.
-From Verif Require Import Value PyEq Coll HistCheck HistProps HistGuards.
+From Verif Require Import Value PyEq Path Filter Coll HistCheck HistProps HistGuards.
 Import ListNotations.
 Open Scope Z_scope.
 
@@ -19,8 +19,49 @@ Definition c09_check (h : hist_case) : Z :=
   flags h (c09_ok (h_ops h) (h_obs h)) (c09_reasons (h_ops h) (h_obs h)).
 Definition c10_check (h : hist_case) : Z :=
   flags h (c10_ok (h_ops h) (h_obs h)) (c10_reasons (h_ops h) (h_obs h)).
+(* upserts for which the last two clauses of the C13 predicate (where the _id comes from; the
+   new document matches an equality-only filter) are not decided/claimed: the update writes
+   _id, the filter's _id carries nested operators, filter paths conflict with each other, or a
+   path component is empty or starts with '$' (see Refuted/C13.v part B) *)
+Definition c13_writes_id (u : value) : bool :=
+  match u with
+  | VDoc ufs =>
+      existsb (fun kv => match snd kv with
+                         | VDoc fields =>
+                             existsb (fun f => (String.eqb (fst f) "_id")
+                                               || match snd f with VStr t => String.eqb t "_id" | _ => false end)
+                                     fields
+                         | _ => false end) ufs
+      || has_key "_id" ufs
+  | _ => false
+  end.
+Fixpoint c13_has_dollar_key (v : value) : bool :=
+  match v with
+  | VDoc fs => (fix go (fs : list (string * value)) : bool :=
+                  match fs with
+                  | [] => false
+                  | (k, x) :: fs' => Filter.starts_dollar k || c13_has_dollar_key x || go fs'
+                  end) fs
+  | _ => false
+  end.
+Definition c13_odd_filter (f : value) : bool :=
+  match f with
+  | VDoc fs =>
+      existsb (fun kv => existsb (fun part => String.eqb part "" || Filter.starts_dollar part)
+                                 (Path.split_dots (fst kv))) fs
+      || existsb (fun kv => existsb (fun kv' => negb (String.eqb (fst kv) (fst kv'))
+                                                 && HistProps.paths_overlap (fst kv) (fst kv')) fs) fs
+      || match assoc "_id" fs with Some i => c13_has_dollar_key i | None => false end
+  | _ => true
+  end.
+Definition c13_undecided (ops : list op) : bool :=
+  existsb (fun o => match o with
+                    | OUpdate f u _ true | OReplace f u true => c13_writes_id u || c13_odd_filter f
+                    | _ => false end) ops.
+
 Definition c13_check (h : hist_case) : Z :=
-  flags h (c13_ok (h_ops h) (h_obs h)) (c13_reasons (h_ops h) (h_obs h)).
+  flags h (c13_ok (h_ops h) (h_obs h))
+        (c13_reasons (h_ops h) (h_obs h) + (if c13_undecided (h_ops h) then 16 else 0)).
 Definition c14_check (h : hist_case) : Z :=
   flags h (c14_ok (h_ops h) (h_obs h)) (c14_reasons (h_ops h) (h_obs h)).
 Definition c15_check (h : hist_case) : Z :=
